@@ -8,13 +8,17 @@ from harness import lib_queue as lq
 
 PID = 'C05'
 TITLE = 'Failures and stop requests propagate through queues without hanging'
-LEAN_MODULES = ['MlModel.Properties.C05']
+LEAN_MODULES = ['MlModel.Properties.C05', 'MlModel.Properties.C05Live', 'MlModel.Witness.C05']
 TRUSTED = list(__import__('harness.props.c04', fromlist=['TRUSTED']).TRUSTED)
 ASSUMPTIONS = ['a timeout is modelled as a scheduler choice available whenever a thread is parked with a timeout configured']
 RULE = ('as C04 plus: each producer source fails with p=0.4 at a random position; an extra thread calls maybe_stop() or '
         'maybe_stop(ValueError) (each p=0.25); timeout configured with p=0.3 (timeout choices drawn with weight 0.1); '
         'non-trivial = a fault event actually happened in the run (a consumer or producer ended with an error, or a stop '
-        'request was executed) and threads took turns at least 10 times')
+        'request was executed) and threads took turns at least 10 times. '
+        'Model-guided stage: for 5 fixed small configurations (failing item; stop request without / with an exception; '
+        'timeout; all together), seeded random walks on the Lean LTS are reduced (greedy cover) to schedules that together '
+        'execute every program point (Pc constructor, timeout alternatives included) of the model; each is replayed on the '
+        'REAL code, compared as above and checked by the oracle; histograms pc / pc_unreached')
 
 
 def gen_cases(ctx):
@@ -37,6 +41,47 @@ def gen_cases(ctx):
                            changes=rng.randrange(1, 6), horizon=rng.choice([50, 150, 400])))
     ctx.count('mode', mode)
     yield case
+  # many producers parked on a full queue when another one fails (needs every parked producer to be woken)
+  for i in range(120 if ctx.quick else 3000):
+    yield blocked_producers_case(rng)
+    ctx.count('mode', 'blocked_producers')
+
+
+def blocked_producers_case(rng):
+  nprod = rng.randrange(3, 5)
+  failer = rng.randrange(nprod)
+  ths = []
+  for p in range(nprod):
+    n = rng.randrange(2, 6)
+    src = [p * 100 + k for k in range(n)]
+    if p == failer:
+      src.insert(rng.randrange(1, n + 1), 'fail')
+    ths.append(dict(kind='producer', src=src, ret=900 + p))
+  ths.append(dict(kind='get') if rng.random() < 0.7 else dict(kind='batch', max=rng.choice([1, 2]), block=rng.random() < 0.5))
+  return dict(cap=rng.choice([1, 1, 2]), max_enq=nprod, timeout=False, mode='blocked_producers', threads=ths,
+              sched=dict(kind=rng.choice(['random', 'pct']), seed=rng.randrange(10**9), tw=0.1,
+                         changes=rng.randrange(1, 6), horizon=rng.choice([50, 150, 400])))
+
+
+_c04 = __import__('harness.props.c04', fromlist=['_cfg'])
+_cfg, _P, _G, _B = _c04._cfg, _c04._P, _c04._G, _c04._B
+_S = lambda exc=None: dict(kind='stopper', exc=exc) if exc else dict(kind='stopper')
+
+# Model-guided stage: fixed small configurations with the C05 fault events: a failing source item, a stop
+# request without / with an exception, timeout configured, and all of them together.
+GUIDED_CONFIGS = [
+    _cfg(1, [_P([0, 'fail', 1]), _P([100, 101], 901), _G, _B(2, True)]),
+    _cfg(1, [_P([0, 1, 2]), _G, _S()]),
+    _cfg(0, [_P([0, 1]), _P([100], 901), _B(2, True), _S('ValueError')]),
+    _cfg(1, [_P([0, 1, 2]), _G, _B(2, True)], timeout=True),
+    _cfg(2, [_P([0, 1, 'fail']), _P([100, 101, 102], 901), _B(3, False), _S()], timeout=True),
+]
+
+
+def extra(ctx):
+  """Model-guided stage: schedules chosen by random walks on the Lean LTS so that together they execute EVERY
+  program point of the model (timeout alternatives included), replayed on the real code and compared step by step."""
+  lq.model_guided(ctx, GUIDED_CONFIGS, ctx.seed, unreachable={}, oracle=oracle)
 
 
 run_impl = lq.run_impl
@@ -92,5 +137,13 @@ def finding(case, what):
   return None
 
 
-neighbours = __import__('harness.props.c04', fromlist=['neighbours']).neighbours
+_nb04 = __import__('harness.props.c04', fromlist=['neighbours']).neighbours
+
+
+def neighbours(case, rng):
+  for k, c in enumerate(_nb04(case, rng)):
+    yield c
+    if k % 2 == 0:
+      yield blocked_producers_case(rng)
+
 shrink = lq.shrink_schedule_case
